@@ -80,7 +80,7 @@ def run(R, tier):
                           'APIs in the schedule; every returned value is compared with a fresh executor (history independence), overrides and sizes '
                           'are compared before/after each query, grid shapes with the sizes')
     C.proof_obligations(R, 'theories/Props/C08.v', 'Props.C08', TARGETS)
-    if any('build failed' in b for b in R.broken):
+    if any('Coq build failed' in b for b in R.broken):
         return
     n = 150 if tier == 'quick' else 2000
     recipes = corpus()
